@@ -151,6 +151,8 @@ def xindex(array, row_num, col_num=None, area_num=1):
     )
     if not res.shape:
         res = res.reshape(1, 1)
+    if res.size == 1 and isinstance(res.ravel()[0], np.ndarray):
+        res = np.atleast_2d(res.ravel()[0])  # An entire row of the array.
     return res.view(Array)
 
 
